@@ -742,7 +742,13 @@ func Run(c *core.Ctx) core.FinishOpts {
 			if o.consumer != f.bad(0).consumer {
 				continue
 			}
-			for _, mode := range modes {
+			for mi, mode := range modes {
+				if c.Tier != "thorough" && (mi+i+j)%2 != 0 {
+					// quick: two of the four output modes per (fault, operator), rotating, so that
+					// every (fault, operator) pair and every (operator, mode) pair is still enumerated;
+					// the thorough tier runs the full product.
+					continue
+				}
 				for _, opt := range opts {
 					for _, p := range ps {
 						dir := fixture[f.name+"|"+p.name]
@@ -993,7 +999,7 @@ func Run(c *core.Ctx) core.FinishOpts {
 		Rule: "complete product fault x operator x output mode x row position (x optimizer setting in the thorough tier); the fault sits below the operator " +
 			"(input row / source expression; joins also with an empty other side) or above it (consumer-* faults: failing expression over the operator's output); " +
 			"a case counts (non-trivial) only if its control twin - same query text, fault-free input - exits 0 with output; distinct by case id",
-		Floor:       c.Pick(1500, 15000),
+		Floor:       c.Pick(800, 15000),
 		Assumptions: []string{"a zero exit of the control twin shows the query shape is accepted, so the faulted run's non-zero exit is caused by the fault", "exit status and stderr as seen by os/exec"},
 		Exhaustive:  true,
 	}
